@@ -1,4 +1,4 @@
-From Coq Require Import ZArith QArith Qminmax List Bool String Permutation Lia Lra Psatz.
+From Coq Require Import ZArith QArith Qminmax List Bool String Permutation Lia Lqa.
 From Elex Require Import Base.Frame Base.QRound Model.Aggregate.
 Import ListNotations.
 Open Scope Z_scope.
